@@ -100,9 +100,17 @@ def render(dirs, lay):
             if d.bkind == "T":
                 # Description: the text lexeme starts on the first byte of the line after the keyword line
                 start = kwline_end + 1   # right after the first line-end byte (CRLF: the LF is part of the text)
-                out.extend(ind + b"  " + body + lay.nl)
-                state["after_schema"] = True   # everything up to the next directive is description text
-                exp.append(("T", start, None, None))   # end fixed up later: up to the byte before the next keyword
+                if body.lstrip(b" \t").startswith(b"("):
+                    # parenthesised text: the lexeme ends with the closing parenthesis (on its own line)
+                    base = len(out) + len(ind) + 2
+                    out.extend(ind + b"  " + body + lay.nl)
+                    end = base + body.rindex(b")")
+                    exp.append(("T", start, end, bytes(out[start:end + 1])))
+                    state["after_schema"] = False
+                else:
+                    out.extend(ind + b"  " + body + lay.nl)
+                    state["after_schema"] = True   # everything up to the next directive is description text
+                    exp.append(("T", start, None, None))   # end fixed up later: up to the byte before the next keyword
             else:
                 exp.append((d.bkind, len(out), len(out) + len(body) - 1, body))
                 out.extend(body)
@@ -169,5 +177,7 @@ def gen_lexical_doc(rng, n=None):
             dirs.append(D(rng.choice(["Body", "TYPE", "200"]), ([b"@r"] if False else []) + [b"regex"], None, body=rng.choice([b"/ab+/", b"/a\\/b/", b"/[a-z]{2}/"]), bkind="T"))
             dirs[-1].regex = True
         else:
-            dirs.append(D("Description", [], None, body=rng.choice([b"some text", b"line one", b"x"]), bkind="T"))
+            dirs.append(D("Description", [], None, body=rng.choice([b"some text", b"line one", b"x",
+                b"(\n  in parentheses\n)", b"(\n  one blank line before the end\n\n)", b"(\n  two\n\n\n)", b"(\n  blanks on the empty line\n   \n)",
+                b"(\n  first\n\n  second\n)", b"(\n x\n\t\n)"]), bkind="T"))
     return dirs
